@@ -80,7 +80,8 @@ quick.append(job("c13.oneclass", secs=60, allow=AL, qto=500, n=3, nu=3, kern=2))
 # ---- epsilon-SVR at SolverState level ----------------------------------------------------------------------------
 quick.append(job("c13.svr", secs=60, allow=AL, n=2, symx=0, x0=0, x1=1))
 quick.append(job("c13.svr", secs=60, allow=AL, n=3, symx=0, x0=0, x1=1, x2=2))
-quick.append(job("c13.svr", secs=150, allow=AL, n=3, symx=0, x0=1, x1=3, x2=5, c=8, loss=1))
+quick.append(job("c13.svr", secs=90, allow=AL, n=3, symx=0, x0=1, x1=3, x2=5))
+quick.append(job("c13.svr", secs=150, allow=AL, n=3, symx=0, x0=-2, x1=0, x2=2, c=8, loss=1))
 quick.append(job("c13.svr", secs=60, allow=AL, qto=500, n=2, symx=1))
 
 thorough = list(quick)
@@ -100,7 +101,7 @@ for xs in DYADIC:
         thorough.append(job("c13.csvc", secs=300, allow=AL, n=3, pat=pat, symx=0, symw=1, x0=xs[0], x1=xs[1], x2=xs[2], shrink=0, only=ALL, kern=2, epsk=7))
 for pat in PATS3:
     for cp, cn in ((4, 4), (8, 1), (1, 16)):
-        thorough.append(job("c13.csvc", secs=300, jobs=2, allow=AL, qto=2000, n=3, pat=pat, symx=1, cp=cp, cn=cn, shrink=0, only=ALL, div=6))
+        thorough.append(job("c13.csvc", secs=300, allow=AL, qto=1000, n=3, pat=pat, symx=1, cp=cp, cn=cn, shrink=0, only=ALL, div=6))
 for nu in (1, 2, 4):
     thorough.append(job("c13.nusvc", secs=300, jobs=2, allow=ALD, qto=2000, n=3, pat=5, nu=nu, symx=1, only=BOX | EQ | KKT, div=6))
     thorough.append(job("c13.oneclass", secs=300, jobs=2, allow=AL, qto=2000, n=3, nu=nu, div=0))
@@ -127,7 +128,7 @@ SUGGESTED_KNOWN_FINDINGS = [
     {"property": "C13", "harness": "c13.csvc", "params": {"shrink": 1}, "check": None,
      "what": "shrinking on: KKT / decision value / panic / non-finite rho; causes: loop bound above, missing `nactive = ntotal` after reconstruct_gradient in solve() (solver_smo.rs:801-803), gradient_fixed never maintained because `ui`/`uj` are read after the alpha update (solver_smo.rs:344-345), reconstruct_gradient tests alpha[i] for alpha[j] (solver_smo.rs:222), and the linear hyperplane uses the permuted self.target(i) with the un-permuted alpha (solver_smo.rs:878)"},
     {"property": "C13", "harness": "c13.nusvc", "params": {"kern": 0, "only": DEC}, "check": "nusvc.decision value == sum_i alpha_i K(x_i, q) - rho from the published coefficients",
-     "what": "classification::fit_nu (classification.rs:141-153) divides alpha and rho by r but not the pre-combined linear hyperplane, so weighted_sum / predict of a linear nu-SVC use w*r; x=(7,6), y=(+,-), nu=0.5: decision(6.5) = -9.75 instead of 0, decision(10) = -8 (label false) instead of 7"},
+     "what": "classification::fit_nu (classification.rs:149-159) divides alpha and rho by r but not the pre-combined linear hyperplane, so weighted_sum / predict of a linear nu-SVC use w*r; x=(7,6), y=(+,-), nu=0.5: decision(6.5) = -9.75 instead of 0, decision(10) = -8 (label false) instead of 7"},
     {"property": "C13", "harness": "c13.nusvc", "params": {"only": FINITE}, "check": "nusvc.rho and the coefficients are finite",
      "what": "calculate_rho_nu defect end to end: x=(0,1,3,4), y=(-,-,+,+), nu=0.5 returns alpha = 0, rho = NaN"},
 ]
